@@ -30,7 +30,7 @@ def class_table(mode, verdicts):
     add("valid", "ok")
     add("extra-field", "ok")
     add("bytes:whitespace-padded", "ok")
-    for k in ("garbage", "empty", "truncated:1", "truncated:half", "truncated:last", "trailing"):
+    for k in ("garbage", "empty", "truncated:1", "truncated:half", "truncated:last", "trailing", "huge"):
         add("bytes:" + k, "mb")
     for k in ("null", "array", "number", "string", "true", "emptyobj", "nested"):
         add("json:" + k, "mb")
